@@ -465,7 +465,10 @@ class Check:
                 if "pattern" in t:       # one expression cut out of a function body
                     etr = pytrans.ExpressionTranslator(dict(t["vars"]))
                     order = [a for a, _ in t["vars"]]
-                    defs.append(etr.expression(pytrans.source_of(t["file"]), t["pattern"], "tr_" + t["name"], order))
+                    if "subs" in t:
+                        defs.append(etr.block(pytrans.source_of(t["file"]), t["pattern"], t["subs"], "tr_" + t["name"], order))
+                    else:
+                        defs.append(etr.expression(pytrans.source_of(t["file"]), t["pattern"], "tr_" + t["name"], order))
                     bind = " ".join(f"(v_{a} : {k})" for a, k in t["vars"])
                     lemma = (f"Lemma tie_{t['name']} : forall (T : Type) (N : Num T) {bind},\n"
                              f"  tr_{t['name']} N {' '.join('v_' + a for a in order)} = {t['model']}.\nProof. intros. reflexivity. Qed.\n")
